@@ -294,6 +294,27 @@ def invented_name_probes(rec):
             m.a_b = LeafQ()
             m.k = LeafQ(q=m.a_b.q)
             want = ["a_b_q_c"]
+        elif variant in ("nested-siblings-first", "nested-siblings-second", "nested-deep-second"):
+            # a port bundle holding several sub-bundles of ONE definition; the implicit net takes aim at a leaf of one of them
+            Lane = h.Bundle(name=f"NpLane{uid}")
+            Lane.add(h.Input(), name="i")
+            Lane.add(h.Output(), name="c")
+            Link = h.Bundle(name=f"NpLink{uid}")
+            Link.add(Lane(), name="tx")
+            Link.add(Lane(), name="rx")
+            outer = Link
+            want = ["link_tx_i", "link_tx_c", "link_rx_i", "link_rx_c"]
+            which = "tx" if variant.endswith("first") else "rx"
+            if variant == "nested-deep-second":
+                Trunk = h.Bundle(name=f"NpTrunk{uid}")
+                Trunk.add(Link(), name="a")
+                Trunk.add(Link(), name="b")
+                outer = Trunk
+                want = [f"link_{x}_{y}_{z}" for x in "ab" for y in ("tx", "rx") for z in "ic"]
+                which = "b_rx"
+            m.add(outer(port=True), name="link")
+            m.add(Leaf(), name=f"link_{which}")
+            m.k = Leaf(c=m.get(f"link_{which}").c)
         elif variant == "pair":
             B2 = h.Bundle(name=f"NpB2{uid}")
             B2.add(h.Input(), name="b_p")
@@ -303,7 +324,8 @@ def invented_name_probes(rec):
             want = ["a_b_p"]
         return m, want
 
-    for k, variant in enumerate(("baseline", "portref", "noconn", "named-noconn", "array-element", "bundle-portref", "pair")):
+    for k, variant in enumerate(("baseline", "portref", "noconn", "named-noconn", "array-element", "bundle-portref", "pair",
+                                 "nested-siblings-first", "nested-siblings-second", "nested-deep-second")):
         for order in ("bundle-first",):
             rec.count("invented-names.probed")
             case = {"kind": "invented-name", "variant": variant}
@@ -320,12 +342,61 @@ def invented_name_probes(rec):
                                                                 f"{sorted(want)}: a name invented for an internal net or instance took one", case=case, variant=variant)
 
 
+def template_probes(rec):
+    """Bundle instances made FROM another instance kept in a variable (`h.flipped(t)`, `copy(t)`, `n * t`) - several of them from one
+    template, in every order: each is what the same expression gives when it is the only one, and the template stays as declared."""
+    import copy as _copy
+
+    import hdl21 as h
+
+    def ports_of(m):
+        pm = h.to_proto(m).modules[-1]
+        return sorted((p.signal, int(p.direction)) for p in pm.ports)
+
+    ops = {"flipped": lambda t: h.flipped(t), "copy": lambda t: _copy.copy(t), "mult": lambda t: (2 * t)[1], "self": None}
+    for named in (False, True):
+        for tflip in (False, True):
+            for seq in itertools.permutations(["flipped", "flipped", "copy", "mult", "self"], 3):
+                uid = next(_np_uid)
+                Chan = h.Bundle(name=f"TpChan{uid}")
+                Chan.add(h.Input(), name="i")
+                Chan.add(h.Output(width=2), name="o")
+                rec.count("templates.probed")
+                case = {"kind": "template", "named": named, "template_flipped": tflip, "sequence": list(seq)}
+                rec.case(key=f"template:{named}:{tflip}:{seq}", nontrivial=True, sample=case if uid % 40 == 0 else None)
+                try:
+                    tmpl = h.BundleInstance(of=Chan, port=True, flipped=tflip, name="tmpl" if named else None)
+                    got_m, ref_m = h.Module(name=f"TpGot{uid}"), h.Module(name=f"TpGot{uid}")
+                    used_self = False
+                    for k, op in enumerate(seq):
+                        if op == "self":
+                            if used_self:
+                                continue
+                            used_self = True
+                            val, flip = tmpl, tflip
+                        else:
+                            val, flip = ops[op](tmpl), (not tflip if op == "flipped" else tflip)
+                        val.name = None
+                        got_m.add(val, name=f"p{k}")
+                        ref_m.add(h.BundleInstance(of=Chan, port=True, flipped=flip), name=f"p{k}")
+                    got, ref = ports_of(got_m), ports_of(ref_m)
+                except Exception as e:
+                    rec.violation(f"template-use-raises:{type(e).__name__}", f"bundle instances derived from one template ({seq}, template "
+                                  f"{'named' if named else 'unnamed'}, flipped={tflip}) raised: {str(e)[:100]}", case=case)
+                    continue
+                rec.count("templates.compared")
+                if got != ref:
+                    rec.violation("flattened-port-direction-wrong", f"bundle ports derived from one {'named' if named else 'unnamed'} template instance (flipped={tflip}) by "
+                                  f"{seq}: exported (port, direction) {got}, each expression on its own gives {ref}", case=case, via="template")
+
+
 _np_uid = itertools.count()
 
 
 def run(ctx, rec):
     if ctx.shard == 0:
         invented_name_probes(rec)
+        template_probes(rec)
     rng = ctx.rng("c10")
     n = 3000 if ctx.quick else 16000
     for k in range(n):
@@ -348,6 +419,9 @@ def shards(ctx):
 def replay(ctx, rec, case):
     if case.get("kind") == "invented-name":
         invented_name_probes(rec)
+        return
+    if case.get("kind") == "template":
+        template_probes(rec)
         return
     o = judge(rec, case["design"], case["meta"], sample=True)
     if o is not None and o.built is not None:
